@@ -10,6 +10,8 @@ from .base import *
 from .f4_bundles import BUNDLES, bref, b
 
 BUND = dict(BUNDLES)
+BUND["BXY"] = {"sigs": [("y", 2, "sig")], "subs": []}
+BUND["BC"] = {"sigs": [("x_y", 2, "sig"), ("x_y_", 1, "sig")], "subs": [("x", "BXY", False)]}  # members whose flattened names coincide
 BUND["Diff"] = {"sigs": [("p", 1, "sig"), ("n", 1, "sig")], "subs": [], "builtin": "Diff"}
 
 # rule -> (generated base name, width of the generated object or None for instances)
@@ -20,6 +22,8 @@ RULES = {
     "bundle_member": ("bb_y", 2),    # internal bundle instance bb of B1
     "bundle_port": ("pb_x", 1),      # bundle port pb of B1 on the top module
     "nested_member": ("b2_sub_y", 2),  # internal bundle instance b2 of B2
+    "member_clash": ("bc_x_y", 2),   # internal bundle bc of BC: members x_y, x_y_ and x.y all want the name bc_x_y(_)
+    "member_clash_port": ("pc_x_y", 2),  # the same on a bundle port of the top module
     "array_elem": ("arr_1", None),   # arr = 2 * Inner
     "pair_elem": ("pr_n", None),     # pr = Pair(Inner)
 }
@@ -62,6 +66,20 @@ def design(desc):
     elif rule == "nested_member":
         trig += [("binst", "b2", "B2"), ("inst", "i0", ("mod", "Inner"), [("a", bref("b2", "s")), ("b", bref("b2", "sub", "y"))]),
                  ("inst", "i1", ("mod", "Inner"), [("a", bref("b2", "sub", "x")), ("b", sig("v"))])]
+    elif rule == "member_clash":
+        trig += [("binst", "bc", "BC"),
+                 ("inst", "i0", ("mod", "Inner"), [("a", bref("bc", "x_y_")), ("b", bref("bc", "x_y"))]),
+                 ("inst", "i1", ("mod", "Inner"), [("a", sig("s")), ("b", bref("bc", "x", "y"))])]
+    elif rule == "member_clash_port":
+        # the clashing members sit on a bundle *port* of a middle module; parent and child must still agree member by member
+        mods["Mid"] = {"name": "Mid", "style": "class", "decls": [
+            ("bport", "pc", "BC", False, None), ("sig", "ms", 1),
+            ("inst", "i0", ("mod", "Inner"), [("a", bref("pc", "x_y_")), ("b", bref("pc", "x_y"))]),
+            ("inst", "i1", ("mod", "Inner"), [("a", sig("ms")), ("b", bref("pc", "x", "y"))])]}
+        trig += [("binst", "pc", "BC"), ("inst", "m", ("mod", "Mid"), [("pc", ("b", "pc"))]),
+                 ("inst", "t0", ("ext", "P2", {"k": 20}), [("a", bref("pc", "x_y"))]),
+                 ("inst", "t1", ("ext", "P1", {"k": 21}), [("a", bref("pc", "x_y_"))]),
+                 ("inst", "t2", ("ext", "P2", {"k": 22}), [("a", bref("pc", "x", "y"))])]
     elif rule == "array_elem":
         trig += [("array", "arr", ("mod", "Inner"), 2, [("a", sig("s")), ("b", sig("v"))])]
     elif rule == "pair_elem":
